@@ -3,6 +3,8 @@ import Ptn.C16.TtndoTrace
 import Ptn.C16.TtndoTop
 import Ptn.C16.Value
 import Ptn.C16.ValueDemo
+import Ptn.C16.ValueLoop
+import Ptn.C16.LoopDemo
 /-! Property theorems for C16. Only property theorems and non-vacuity examples live here. -/
 namespace Ptn.C16
 
@@ -339,5 +341,205 @@ example : K.SWF ∧ B.SWF ∧ Leg.gKet (Ttndo.ketTree st).id 0 ∈ K.free ∧ Le
     (∃ bl ∈ B.leaves, ∀ ρ : Asg Leg, ρ (Leg.gBra (Ttndo.ketTree st).id 0) ≠ 0 → bl.2 ρ = 0) ∧
     0 < dim Ttndo.rootKetLeg ∧ 0 < dim Ttndo.rootBraLeg :=
   padded_tensors
+
+/-! ## Value level, unconditional in the program: the model's own sequence of `tensordot` calls
+
+`Ptn.C04.Built t e` (`Ptn/C04/Built.lean`): the tensor `t` of the leg-label calculus is the result of the nesting
+`e` of `tensordot` calls over fresh tensors.  `BuiltFns.lean` proves "inputs built ⟹ output built from exactly the
+consumed leaves" for every function of the model of `ttndo_contractions.py` (`trStep`, `teStep`,
+`_contract_ttno_root`, `_single_site_contraction`, `_contract_final_block`), `BuiltTree.lean` composes them along the
+tree, `ValueLoop.lean` shows that every such expression satisfies `Ttndo.TraceProgram` / `Ttndo.TtnoProgram` with the
+canonical dense vectors `Ttndo.ketVec`, `Ttndo.braVec` (and the dense operator) as reference contractions. -/
+
+open Ptn.C04 Ptn.Ein in
+/-- **`trace_ttndo` computes `Σ_{a,b} root[a,b] · Σ_phys ψ_a(phys) · ψ'_b(phys)` — the loop itself, unconditionally
+in the program.**  For every state tree with distinct identifiers, every commutative semiring, all dimensions and
+ALL values of the root tensor `rv` and of the node tensors `kv` (ket copy), `bv` (bra copy), each reading only its
+own legs:
+
+* the routine returns a closed tensor `⟨[], binds⟩`: the result `⟨[rootOpenLeg], binds⟩` of its last `tensordot`
+  with the open leg of the root tensor (dimension 1) indexed away (`contraction_result[0]`);
+* that last result is BUILT, by the `tensordot` calls the loop over the ket identifiers and
+  `_contract_final_block` perform, from an expression whose leaves are exactly the root tensor and the ket and bra
+  tensors of all nodes;
+* EVERY expression `e` from which it is built over these leaves is strongly well-formed, has the record `binds`,
+  has the open leg of the root tensor as its only free leg, and evaluates — for every index of that leg, in
+  particular index `0` — to the sum over the two root-bond indices of the root tensor times the sum over one common
+  index per physical pair of the product of the dense vectors `ketVec` and `braVec` of the two copies (each branch
+  contracted over its own bonds, child by child). -/
+theorem trace_loop_value {R : Type} [CommSemiring R] (t : Ptn.C04.Tree) (hnd : t.ids.Nodup)
+    (kv bv : Nat → Asg Leg → R) (rv : Asg Leg → R)
+    (hkv : Ttndo.KetLocal0 kv (Ttndo.ketTree t)) (hbv : Ttndo.BraLocal0 bv (Ttndo.ketTree t))
+    (hrv : DependsOn (· ∈ Ttndo.rootLegs) rv) :
+    ∃ binds, Ttndo.traceTtndo (Ttndo.ttndoNetK (Ttndo.ketTree t)) = some ⟨[], binds⟩ ∧
+      (∃ e : Expr Leg R, Built ⟨[Ttndo.rootOpenLeg], binds⟩ e ∧
+        e.leaves.Perm (Ttndo.traceLeaves rv kv bv (Ttndo.ketTree t))) ∧
+      ∀ e : Expr Leg R, Built ⟨[Ttndo.rootOpenLeg], binds⟩ e →
+        e.leaves.Perm (Ttndo.traceLeaves rv kv bv (Ttndo.ketTree t)) →
+        e.SWF ∧ e.binds.Perm binds ∧ e.free = [Ttndo.rootOpenLeg] ∧
+        ∀ (dim : Leg → Nat) (σ : Asg Leg), e.eval dim σ =
+          sumPairs dim (Ttndo.rootPairs (Ttndo.ketTree t)) (fun τ => rv τ *
+            sumPairs dim (Ttndo.physPairs (Ttndo.ketTree t)) (fun ρ =>
+              (Ttndo.ketVec kv (Ttndo.ketTree t)).eval dim ρ * (Ttndo.braVec bv (Ttndo.ketTree t)).eval dim ρ) τ) σ := by
+  obtain ⟨h1, h2⟩ := Ttndo.ketTree_wf t hnd
+  have h0 : (0 : Nat) ∉ (Ttndo.ketTree t).ids := fun h => by have := h2 0 h; omega
+  obtain ⟨binds, hrun, hb, hbuilt⟩ := Ttndo.traceTtndo_built (Ttndo.ketTree t) h1 h2 kv bv rv
+  refine ⟨binds, hrun, hbuilt, fun e he hl => ?_⟩
+  obtain ⟨hprog, hfree, _, _⟩ := Ttndo.trace_program (Ttndo.ketTree t) h1 h0 kv bv rv hkv hbv hrv binds e he hl
+  exact ⟨hprog.e_swf, hprog.record, hfree, fun dim σ => hprog.value hb dim σ⟩
+
+open Ptn.C04 Ptn.Ein in
+/-- **`trace()` of the TTNDO of `from_ttns` is `Σ_phys ψ(phys) · ψ'(phys)` — the loop itself, for every root bond
+dimension ≥ 1.**  As `trace_loop_value`, with the root tensor `eye(d).reshape(d, d, 1)` (`Ttndo.eyeRoot`) and the
+padded root bond: the tensors of the two copies of the state's root vanish off index `0` of their root-bond leg
+(`padded_root_index`).  Every expression the result is built from evaluates to the sum over the physical indices of
+the product of the two dense vectors at root-bond index `0` — `<psi|psi>` when the bra tensors are the conjugates.
+No hypothesis relates the two root-leg dimensions to each other or bounds them. -/
+theorem trace_loop_value_padded_root {R : Type} [CommSemiring R] (t : Ptn.C04.Tree) (hnd : t.ids.Nodup)
+    (kv bv : Nat → Asg Leg → R)
+    (hkv : Ttndo.KetLocal0 kv (Ttndo.ketTree t)) (hbv : Ttndo.BraLocal0 bv (Ttndo.ketTree t))
+    (dim : Leg → Nat) (hdK : 0 < dim Ttndo.rootKetLeg) (hdB : 0 < dim Ttndo.rootBraLeg)
+    (hkz : ∀ ρ : Asg Leg, ρ (Leg.gKet (Ttndo.ketTree t).id 0) ≠ 0 → kv (Ttndo.ketTree t).id ρ = 0)
+    (hbz : ∀ ρ : Asg Leg, ρ (Leg.gBra (Ttndo.ketTree t).id 0) ≠ 0 → bv (Ttndo.ketTree t).id ρ = 0) :
+    ∃ binds, Ttndo.traceTtndo (Ttndo.ttndoNetK (Ttndo.ketTree t)) = some ⟨[], binds⟩ ∧
+      (∃ e : Expr Leg R, Built ⟨[Ttndo.rootOpenLeg], binds⟩ e ∧
+        e.leaves.Perm (Ttndo.traceLeaves Ttndo.eyeRoot kv bv (Ttndo.ketTree t))) ∧
+      ∀ e : Expr Leg R, Built ⟨[Ttndo.rootOpenLeg], binds⟩ e →
+        e.leaves.Perm (Ttndo.traceLeaves Ttndo.eyeRoot kv bv (Ttndo.ketTree t)) →
+        ∀ σ : Asg Leg, e.eval dim σ =
+          sumPairs dim (Ttndo.physPairs (Ttndo.ketTree t)) (fun ρ =>
+              (Ttndo.ketVec kv (Ttndo.ketTree t)).eval dim ρ * (Ttndo.braVec bv (Ttndo.ketTree t)).eval dim ρ)
+            (upd (upd σ (Leg.gKet (Ttndo.ketTree t).id 0) 0) (Leg.gBra (Ttndo.ketTree t).id 0) 0) := by
+  obtain ⟨h1, h2⟩ := Ttndo.ketTree_wf t hnd
+  have h0 : (0 : Nat) ∉ (Ttndo.ketTree t).ids := fun h => by have := h2 0 h; omega
+  obtain ⟨binds, hrun, hb, hbuilt⟩ := Ttndo.traceTtndo_built (Ttndo.ketTree t) h1 h2 kv bv Ttndo.eyeRoot
+  refine ⟨binds, hrun, hbuilt, fun e he hl σ => ?_⟩
+  obtain ⟨hprog, _, hK, hB⟩ := Ttndo.trace_program (Ttndo.ketTree t) h1 h0 kv bv Ttndo.eyeRoot hkv hbv
+    Ttndo.eyeRoot_local binds e he hl
+  have hp := Ttndo.PaddedRoot.of_tensors dim (Ttndo.ketTree t) _ _ hK hB hprog.rootK_free hprog.rootB_free _ _
+    (Ttndo.root_leaf_mem (ketLayer kv) (Ttndo.ketTree t)) (Ttndo.root_leaf_mem (braLayerK bv) (Ttndo.ketTree t))
+    hkz hbz hdK hdB
+  exact hprog.value_padded hb dim hp σ
+
+open Ptn.C04 Ptn.Ein Ttndo.Demo in
+/-- non-vacuity: the node tensors of the demo network as functions of the identifier (state tree `0 — 1`, integer
+tensors reading all their legs, padded root bond of dimension 3) satisfy every hypothesis -/
+example : st.ids.Nodup ∧ Ttndo.KetLocal0 kvD (Ttndo.ketTree st) ∧ Ttndo.BraLocal0 bvD (Ttndo.ketTree st) ∧
+    DependsOn (· ∈ Ttndo.rootLegs) (Ttndo.eyeRoot (R := Int)) ∧
+    0 < dim Ttndo.rootKetLeg ∧ 0 < dim Ttndo.rootBraLeg ∧
+    (∀ ρ : Asg Leg, ρ (Leg.gKet (Ttndo.ketTree st).id 0) ≠ 0 → kvD (Ttndo.ketTree st).id ρ = 0) ∧
+    (∀ ρ : Asg Leg, ρ (Leg.gBra (Ttndo.ketTree st).id 0) ≠ 0 → bvD (Ttndo.ketTree st).id ρ = 0) :=
+  ⟨st_nodup, kvD_local, bvD_local, Ttndo.eyeRoot_local, by decide, by decide, kvD_padded, bvD_padded⟩
+
+open Ptn.C04 Ptn.Ein Ttndo.Demo in
+/-- … and the right-hand side of the conclusion (the canonical dense vectors of the two copies joined over the
+physical pairs, root-bond index 0) is the integer 622 of the example after `trace_value_padded_root` -/
+example : sumPairs dim (Ttndo.physPairs (Ttndo.ketTree st)) (fun ρ =>
+    (Ttndo.ketVec kvD (Ttndo.ketTree st)).eval dim ρ * (Ttndo.braVec bvD (Ttndo.ketTree st)).eval dim ρ)
+    (fun _ => 0) = 622 := by decide
+
+open Ptn.C04 Ptn.Ein in
+/-- **`ttndo_ttno_expectation_value` computes `Σ root · Σ_out (Σ_in ψ · O) · ψ'` — the loop itself, unconditionally
+in the program.**  For every state tree with distinct identifiers, every TTNO on it with independent child orders,
+every commutative semiring and ALL values of the root tensor `rv` and of the node tensors `kv` (ket copy), `ov`
+(operator), `bv` (bra copy), each reading only its own legs:
+
+* the routine returns a closed tensor `⟨[], binds⟩`: the result `⟨[rootOpenLeg], binds⟩` of its last `tensordot`
+  with the open leg of the root tensor indexed away;
+* that last result is BUILT, by the `tensordot` calls of the loop over the ket identifiers, of
+  `_contract_ttno_root` (resp. `_single_site_contraction` for a single node) and of `_contract_final_block`, from
+  an expression whose leaves are exactly the root tensor and the ket, operator and bra tensors of all nodes;
+* EVERY expression `e` from which it is built over these leaves is strongly well-formed, has the record `binds`
+  and the open leg of the root tensor as its only free leg, and evaluates — for all dimensions that agree on the
+  two legs of every pair of the specification graph (NumPy rejects anything else), for every index of the open leg —
+  to the root tensor times the sandwich of the dense operator `opExpr` between the dense vectors `ketVec` and
+  `braVec`: operator INPUT legs summed against the ket copy, OUTPUT legs against the bra copy. -/
+theorem ttndo_ttno_loop_value {R : Type} [CommSemiring R] (t : Ptn.C04.Tree) (hnd : t.ids.Nodup)
+    (opKids : Nat → List Nat)
+    (hperm : ∀ e ∈ Ptn.C04.Tree.info none (Ttndo.ketTree t), (opKids e.1).Perm e.2.2)
+    (kv ov bv : Nat → Asg Leg → R) (rv : Asg Leg → R)
+    (hkv : Ttndo.KetLocal0 kv (Ttndo.ketTree t)) (hov : OpLocalK ov opKids (Ttndo.ketTree t))
+    (hbv : Ttndo.BraLocal0 bv (Ttndo.ketTree t)) (hrv : DependsOn (· ∈ Ttndo.rootLegs) rv) :
+    ∃ binds, Ttndo.ttndoTtnoExpectationValue (Ttndo.ttndoNetK (Ttndo.ketTree t))
+        (Ttndo.ttnoNetK (Ttndo.ketTree t) opKids) = some ⟨[], binds⟩ ∧
+      (∃ e : Expr Leg R, Built ⟨[Ttndo.rootOpenLeg], binds⟩ e ∧
+        e.leaves.Perm (Ttndo.ttnoLeaves rv opKids kv ov bv (Ttndo.ketTree t))) ∧
+      ∀ e : Expr Leg R, Built ⟨[Ttndo.rootOpenLeg], binds⟩ e →
+        e.leaves.Perm (Ttndo.ttnoLeaves rv opKids kv ov bv (Ttndo.ketTree t)) →
+        e.SWF ∧ e.binds.Perm binds ∧ e.free = [Ttndo.rootOpenLeg] ∧
+        ∀ (dim : Leg → Nat),
+          (∀ p ∈ soSpec (Ttndo.ketTree t) ++ Ttndo.rootPairs (Ttndo.ketTree t), dim p.1 = dim p.2) →
+          ∀ σ : Asg Leg, e.eval dim σ =
+            sumPairs dim (Ttndo.rootPairs (Ttndo.ketTree t)) (fun τ => rv τ *
+              sumPairs dim (Ttndo.physOuts (Ttndo.ketTree t)) (fun ρ =>
+                sumPairs dim (Ttndo.physIns (Ttndo.ketTree t)) (fun π =>
+                  (Ttndo.ketVec kv (Ttndo.ketTree t)).eval dim π * (opExpr ov opKids (Ttndo.ketTree t)).eval dim π) ρ *
+                (Ttndo.braVec bv (Ttndo.ketTree t)).eval dim ρ) τ) σ := by
+  obtain ⟨h1, h2⟩ := Ttndo.ketTree_wf t hnd
+  have h0 : (0 : Nat) ∉ (Ttndo.ketTree t).ids := fun h => by have := h2 0 h; omega
+  obtain ⟨binds, hrun, hb, hbuilt⟩ := Ttndo.ttndoTtno_built (Ttndo.ketTree t) opKids h1 h2 hperm kv ov bv rv
+  refine ⟨binds, hrun, hbuilt, fun e he hl => ?_⟩
+  obtain ⟨hprog, hfree, _, _⟩ := Ttndo.ttno_program (Ttndo.ketTree t) h1 h0 opKids hperm kv ov bv rv hkv hov hbv hrv
+    binds e he hl
+  exact ⟨hprog.e_swf, hprog.record, hfree, fun dim hd σ => hprog.value hb dim hd σ⟩
+
+open Ptn.C04 Ptn.Ein in
+/-- **… and on the TTNDO of `from_ttns` this is `Σ ψ' O ψ` — the loop itself, for every root bond dimension ≥ 1**:
+identity root tensor and padded root bond, as in `trace_loop_value_padded_root`. -/
+theorem ttndo_ttno_loop_value_padded_root {R : Type} [CommSemiring R] (t : Ptn.C04.Tree) (hnd : t.ids.Nodup)
+    (opKids : Nat → List Nat)
+    (hperm : ∀ e ∈ Ptn.C04.Tree.info none (Ttndo.ketTree t), (opKids e.1).Perm e.2.2)
+    (kv ov bv : Nat → Asg Leg → R)
+    (hkv : Ttndo.KetLocal0 kv (Ttndo.ketTree t)) (hov : OpLocalK ov opKids (Ttndo.ketTree t))
+    (hbv : Ttndo.BraLocal0 bv (Ttndo.ketTree t))
+    (dim : Leg → Nat)
+    (hd : ∀ p ∈ soSpec (Ttndo.ketTree t) ++ Ttndo.rootPairs (Ttndo.ketTree t), dim p.1 = dim p.2)
+    (hdK : 0 < dim Ttndo.rootKetLeg) (hdB : 0 < dim Ttndo.rootBraLeg)
+    (hkz : ∀ ρ : Asg Leg, ρ (Leg.gKet (Ttndo.ketTree t).id 0) ≠ 0 → kv (Ttndo.ketTree t).id ρ = 0)
+    (hbz : ∀ ρ : Asg Leg, ρ (Leg.gBra (Ttndo.ketTree t).id 0) ≠ 0 → bv (Ttndo.ketTree t).id ρ = 0) :
+    ∃ binds, Ttndo.ttndoTtnoExpectationValue (Ttndo.ttndoNetK (Ttndo.ketTree t))
+        (Ttndo.ttnoNetK (Ttndo.ketTree t) opKids) = some ⟨[], binds⟩ ∧
+      (∃ e : Expr Leg R, Built ⟨[Ttndo.rootOpenLeg], binds⟩ e ∧
+        e.leaves.Perm (Ttndo.ttnoLeaves Ttndo.eyeRoot opKids kv ov bv (Ttndo.ketTree t))) ∧
+      ∀ e : Expr Leg R, Built ⟨[Ttndo.rootOpenLeg], binds⟩ e →
+        e.leaves.Perm (Ttndo.ttnoLeaves Ttndo.eyeRoot opKids kv ov bv (Ttndo.ketTree t)) →
+        ∀ σ : Asg Leg, e.eval dim σ =
+          sumPairs dim (Ttndo.physOuts (Ttndo.ketTree t)) (fun ρ =>
+              sumPairs dim (Ttndo.physIns (Ttndo.ketTree t)) (fun π =>
+                (Ttndo.ketVec kv (Ttndo.ketTree t)).eval dim π * (opExpr ov opKids (Ttndo.ketTree t)).eval dim π) ρ *
+              (Ttndo.braVec bv (Ttndo.ketTree t)).eval dim ρ)
+            (upd (upd σ (Leg.gKet (Ttndo.ketTree t).id 0) 0) (Leg.gBra (Ttndo.ketTree t).id 0) 0) := by
+  obtain ⟨h1, h2⟩ := Ttndo.ketTree_wf t hnd
+  have h0 : (0 : Nat) ∉ (Ttndo.ketTree t).ids := fun h => by have := h2 0 h; omega
+  obtain ⟨binds, hrun, hb, hbuilt⟩ := Ttndo.ttndoTtno_built (Ttndo.ketTree t) opKids h1 h2 hperm kv ov bv
+    Ttndo.eyeRoot
+  refine ⟨binds, hrun, hbuilt, fun e he hl σ => ?_⟩
+  obtain ⟨hprog, _, hK, hB⟩ := Ttndo.ttno_program (Ttndo.ketTree t) h1 h0 opKids hperm kv ov bv Ttndo.eyeRoot
+    hkv hov hbv Ttndo.eyeRoot_local binds e he hl
+  have hp := Ttndo.PaddedRoot.of_tensors dim (Ttndo.ketTree t) _ _ hK hB hprog.rootK_free hprog.rootB_free _ _
+    (Ttndo.root_leaf_mem (ketLayer kv) (Ttndo.ketTree t)) (Ttndo.root_leaf_mem (braLayerK bv) (Ttndo.ketTree t))
+    hkz hbz hdK hdB
+  exact hprog.value_padded hb dim hd hp σ
+
+open Ptn.C04 Ptn.Ein Ttndo.Demo in
+/-- non-vacuity: the demo TTNO (tensors reading all their legs, same child order as the state) on the demo
+network satisfies every hypothesis -/
+example : st.ids.Nodup ∧ (∀ e ∈ Ptn.C04.Tree.info none (Ttndo.ketTree st), (opKids e.1).Perm e.2.2) ∧
+    Ttndo.KetLocal0 kvD (Ttndo.ketTree st) ∧ OpLocalK ovD opKids (Ttndo.ketTree st) ∧
+    Ttndo.BraLocal0 bvD (Ttndo.ketTree st) ∧
+    (∀ p ∈ soSpec (Ttndo.ketTree st) ++ Ttndo.rootPairs (Ttndo.ketTree st), dim p.1 = dim p.2) ∧
+    0 < dim Ttndo.rootKetLeg ∧ 0 < dim Ttndo.rootBraLeg ∧
+    (∀ ρ : Asg Leg, ρ (Leg.gKet (Ttndo.ketTree st).id 0) ≠ 0 → kvD (Ttndo.ketTree st).id ρ = 0) ∧
+    (∀ ρ : Asg Leg, ρ (Leg.gBra (Ttndo.ketTree st).id 0) ≠ 0 → bvD (Ttndo.ketTree st).id ρ = 0) :=
+  ⟨st_nodup, opKids_perm, kvD_local, ovD_local, bvD_local, dims_ok, by decide, by decide, kvD_padded, bvD_padded⟩
+
+open Ptn.C04 Ptn.Ein Ttndo.Demo in
+/-- … and the right-hand side of the conclusion is the integer 16274 of the example after
+`ttndo_ttno_value_padded_root` -/
+example : sumPairs dim (Ttndo.physOuts (Ttndo.ketTree st)) (fun ρ =>
+      sumPairs dim (Ttndo.physIns (Ttndo.ketTree st)) (fun π =>
+        (Ttndo.ketVec kvD (Ttndo.ketTree st)).eval dim π * (opExpr ovD opKids (Ttndo.ketTree st)).eval dim π) ρ *
+      (Ttndo.braVec bvD (Ttndo.ketTree st)).eval dim ρ) (fun _ => 0) = 16274 := by
+  decide
 
 end Ptn.C16
